@@ -54,7 +54,9 @@ GEN_INPUTS.append(
     )
 )
 GEN_MAPS.append((2.0, (("Scaffold_1", (("scaffold_1", 1, 46, 1, ()),)), ("Scaffold_2", (("scaffold_2", 1, 20, 1, ()),)), ("Scaffold_3", (("scaffold_2", 21, 60, -1, ()),)))))
-GEN_CASES = [(0, 0), (0, 1), (1, 2), (1, 3), (2, 4)]  # (input index, map index)
+# Primary mode where the scaffold that carries Primary also carries a haplotype tag and starts with a contig named for the other haplotype
+GEN_MAPS.append((2.0, (("Scaffold_1", (("HAP2_SCAFFOLD_2", 1, 50, 1, ("Painted", "Hap1", "Primary")),)), ("Scaffold_2", (("HAP1_SCAFFOLD_1", 1, 36, 1, ("Painted", "Hap2")),)))))
+GEN_CASES = [(0, 0), (0, 1), (1, 2), (1, 3), (2, 4), (1, 5)]  # (input index, map index)
 # the same scaffold names with another gap layout: what an older version of the FASTA looked like
 ALT_INPUTS = [
     (
@@ -132,7 +134,7 @@ class C17(Check):
         "path masked in logs); (ii-c) index buffer {1,2,3,5,7,250000} through cache files and pipeline output; (iii) all permutations of 4 "
         "consecutive in-process invocations (3 pretext-to-asm inputs + 1 asm-format) vs fresh-process runs; (iv) FASTA vs AGP vs TPF input: same "
         "output files. non-trivial = configuration that differs from the reference configuration in at least one dimension"
-        " Cache states cold / warm / stale / half-updated / stale with the same mtime as the FASTA; cwd in {/, scratch, output directory}; digest scope with two or three tags per piece; an input scaffold that ends in Ns in the three-format comparison."
+        " Cache states cold / warm / stale / half-updated / stale with the same mtime as the FASTA / left by a run interrupted (Ctrl-C) while writing the .agp; cwd in {/, scratch, output directory}; digest scope with two or three tags per piece; an input scaffold that ends in Ns in the three-format comparison."
     )
     assumptions = [
         "hash-order dependence other than tag sets is observed only through the enumerated seeds",
@@ -325,10 +327,10 @@ class C17(Check):
             n = 0
             for seed in seeds:
                 for cwd in ("/", "scratch", "outdir"):
-                    for cache in ("cold", "warm", "stale", "half-updated", "stale-tie"):
+                    for cache in ("cold", "warm", "stale", "half-updated", "stale-tie", "interrupted"):
                         if cwd == "outdir" and cache not in ("cold", "warm"):
                             continue
-                        if cache == "stale-tie" and cwd != "scratch":
+                        if cache in ("stale-tie", "interrupted") and cwd != "scratch":
                             continue
                         n += 1
                         base = d / f"r{n}"
@@ -348,7 +350,11 @@ class C17(Check):
                                 cli.write_fasta(fa, ALT_INPUTS[ii], width=11)
                                 os.utime(fa, (1_000_000, 1_000_000))
                             (base / "warmup").mkdir()
-                            worker("cli", {"argv": argv[:-1] + [str(base / "warmup" / "x.fa")], "cwd": "/" if cwd == "outdir" else cw}, seed=seed)
+                            wargs = {"argv": argv[:-1] + [str(base / "warmup" / "x.fa")], "cwd": "/" if cwd == "outdir" else cw}
+                            if cache == "interrupted":
+                                # the earlier run was interrupted (Ctrl-C) while it wrote the .agp half of the cache
+                                wargs["interrupt"] = {"substr": "asm.fa.agp", "nth_write": 2}
+                            worker("cli", wargs, seed=seed)
                             shutil.rmtree(base / "warmup", ignore_errors=True)
                             if not (base / "in" / "asm.fa.fai").exists():
                                 ctx.violation("cache-not-written", ["gencli", gi, seed, cwd, cache], "no .fai after the warm-up run")
@@ -383,7 +389,7 @@ class C17(Check):
                         else:
                             ctx.nontrivial += 1
                             diff = sorted(k for k in set(files) | set(ref[2]) if files.get(k) != ref[2].get(k))
-                            if cache in ("stale", "half-updated", "stale-tie"):
+                            if cache in ("stale", "half-updated", "stale-tie", "interrupted"):
                                 # a stale cache is announced in the log (warnings about the old files): the log is not compared there
                                 diff = [k for k in diff if not k.endswith(".log")]
                             if codes != ref[1] or diff:
